@@ -48,6 +48,7 @@ func Main(args []string) int {
 	seed := fs.Int64("seed", 1, "seed")
 	runsS := fs.Int("runs-small", 6, "small-mode random behaviours")
 	runsB := fs.Int("runs-big", 3, "big-mode random behaviours")
+	runsV1 := fs.Int("runs-v1", 0, "small-mode behaviours of the first-generation liquidation / lend auction profile")
 	steps := fs.Int("steps", 120, "steps per behaviour")
 	maxWalk := fs.Int("max-walk", 200000, "bound on walked transitions")
 	fs.Parse(args)
@@ -133,18 +134,22 @@ func Main(args []string) int {
 
 	rng := sim.NewRng(*seed)
 	nrun := 0
-	for _, mode := range []string{"s", "b"} {
+	for _, mode := range []string{"s", "b", "v"} {
 		n := *runsS
 		if mode == "b" {
 			n = *runsB
 		}
+		if mode == "v" {
+			n = *runsV1
+		}
 		for r := 0; r < n; r++ {
 			nrun++
-			v := Variants[mode]
+			v := Variants[map[string]string{"s": "s", "b": "b", "v": "s"}[mode]]
+			v.V1 = mode == "v"
 			v.Batch = uint64(1 + rng.Intn(3)) // small sweep batches: the liveness bound is exercised
 			v.LowT1 = mode == "s" && r%2 == 1
 			f := NewFix(v)
-			d := &driver{f: f, e: f.E, rng: rng, lg: lg, mode: mode, run: fmt.Sprintf("drive:%s:%d:%d", mode, *seed, r)}
+			d := &driver{f: f, e: f.E, rng: rng, lg: lg, mode: map[string]string{"s": "s", "b": "b", "v": "s"}[mode], run: fmt.Sprintf("drive:%s:%d:%d", mode, *seed, r)}
 			d.behaviour(*steps, r)
 		}
 	}
